@@ -175,3 +175,30 @@ package protocol
 //@   callback send:recvQueueChan requires fromcodec: arg0 == msg && msg != nil
 //@   loop 0 invariant true
 //@   loop 1 invariant true
+
+// C12: the send loop advances the local state machine once per "ready to send" signal and sends
+// nothing the state machine refused. Every call of transitionState consumes the signal received
+// from sendReadyChan in the same round (typestate token), whether it is for the oldest queued
+// transition of a previously sent batch or for the first message of a new batch; the later messages
+// of a batch are queued, not transitioned. A segment is handed to the muxer only after the batch's
+// first message was accepted by the state machine (transitionState returned nil), and every segment
+// has between 0 and 65535 payload bytes and carries this protocol's number.
+//@ func (p *Protocol) sendLoop()
+//@   props C12
+//@   attr safe off
+//@   attr trackcalls on
+//@   attr inline 2
+//@   attr maxpaths 60000
+//@   token ready acquire recv:sendReadyChan consume call:transitionState
+//@   token accepted acquire ok:transitionState consume never:none
+//@   callback call:transitionState requires oldestfirst: len(queuedStateTransitions) > 0 ==> arg1 == queuedStateTransitions[0]
+//@   callback send:muxerSendChan requires accepted: holds(accepted)
+//@   callback send:muxerSendChan requires segment: arg0 != nil && len(arg0.Payload) <= 65535
+//@   loop 0 invariant !holds(ready)
+//@   loop 1 invariant (holds(ready) <==> !queueTransition) && (queueTransition ==> holds(accepted))
+//@   loop 2 invariant !holds(ready) && holds(accepted)
+
+// Hands a message to the state-transition goroutine and waits for its verdict (channels): the body
+// is outside the verified kernel; callers only rely on the returned error.
+//@ func (p *Protocol) transitionState(msg) (err)
+//@   nobody
